@@ -29,6 +29,9 @@ type C28Case struct {
 	Sched       []int  `json:"sched"`
 	EOFWithData bool   `json:"eof_with_data"`
 	Note        string `json:"note,omitempty"`
+	// MaxDoc: Rules.MaxDocumentSizeBytes for both sides (0 = default 5 GB): the size accounting must
+	// not depend on how the bytes arrive either
+	MaxDoc int `json:"max_doc,omitempty"`
 }
 
 // schedReader delivers data according to a cyclic schedule of read sizes.
@@ -160,6 +163,17 @@ func genC28(t *rapid.T, ctx *Ctx) interface{} {
 	c.Doc = doc
 	c.Sched = genSched(t)
 	c.EOFWithData = rapid.Bool().Draw(t, "eofWithData")
+	switch rapid.IntRange(0, 5).Draw(t, "maxdoc") {
+	case 0:
+		c.MaxDoc = len(doc)
+	case 1:
+		c.MaxDoc = len(doc) + rapid.IntRange(-2, 3).Draw(t, "maxdoc.delta")
+	case 2:
+		c.MaxDoc = len(doc) * 2
+	}
+	if c.MaxDoc < 0 {
+		c.MaxDoc = 0
+	}
 	return c
 }
 
@@ -199,6 +213,10 @@ func init() {
 		Check: func(ci interface{}, ctx *Ctx) error {
 			c := ci.(*C28Case)
 			cfg := newCfg()
+			if c.MaxDoc > 0 {
+				cfg.Rules.MaxDocumentSizeBytes = uint64(c.MaxDoc)
+				ctx.Label("small MaxDocumentSizeBytes")
+			}
 			tmpl := c27Template(c.Tmpl)
 			doc := func() []byte { return append([]byte{}, c.Doc...) }
 			universal := c.Entry == "unmarshal-ce" || c.Entry == "decode-ce"
